@@ -17,24 +17,24 @@ From GV Require Import Query.ProofsOptBase Query.ProofsOptPush Query.ProofsOptBa
 From Coq Require Export List Permutation.
 Import ListNotations.
 
-(** filter push-down: HEAD pushes a predicate into a join side on the word of a variable collector
+(** filter push-down before 7426671 (finding C09-K1, repaired): the code pushed a predicate into a join side on the word of a variable collector
     that does not know the columns of a chained NodeScan's input, of a LeftJoin, of a Union ... *)
-Theorem push_filters_refuted : exists G p,
-  uniform p = true /\ no_conds p = true /\ k_push p = true /\ ~ Permutation (sem G (pfd p)) (sem G p).
+Theorem push_filters_pre_refuted : exists G p,
+  uniform p = true /\ no_conds p = true /\ k_push_pre p = true /\ ~ Permutation (sem G (pfd_pre p)) (sem G p).
 Proof. exact push_scope_refuted_l. Qed.
-Print Assumptions push_filters_refuted.
+Print Assumptions push_filters_pre_refuted.
 
 (** ... never looks at the join type ... *)
-Theorem push_filters_left_join_refuted : exists G p,
-  uniform p = true /\ k_push p = true /\ ~ Permutation (sem G (pfd p)) (sem G p).
+Theorem push_filters_left_join_pre_refuted : exists G p,
+  uniform p = true /\ k_push_pre p = true /\ ~ Permutation (sem G (pfd_pre p)) (sem G p).
 Proof. exact push_left_join_refuted_l. Qed.
-Print Assumptions push_filters_left_join_refuted.
+Print Assumptions push_filters_left_join_pre_refuted.
 
 (** ... and passes Return unconditionally. *)
-Theorem push_filters_return_alias_refuted : exists G p,
-  uniform p = true /\ k_push p = true /\ ~ Permutation (sem G (pfd p)) (sem G p).
+Theorem push_filters_return_alias_pre_refuted : exists G p,
+  uniform p = true /\ k_push_pre p = true /\ ~ Permutation (sem G (pfd_pre p)) (sem G p).
 Proof. exact push_return_alias_refuted_l. Qed.
-Print Assumptions push_filters_return_alias_refuted.
+Print Assumptions push_filters_return_alias_pre_refuted.
 
 (** outside that class the pass keeps the very list of rows (bag, and order under Sort/Limit) *)
 Theorem push_filters_sound : forall G p,
@@ -46,6 +46,12 @@ Theorem push_filters_sound_bag : forall G p,
   uniform p = true -> k_push p = false -> Permutation (sem G (pfd p)) (sem G p).
 Proof. intros G p U K. rewrite (pfd_sound G p U); [apply Permutation_refl|]. unfold k_push in K. now apply Bool.negb_false_iff in K. Qed.
 Print Assumptions push_filters_sound_bag.
+
+(** the code before 7426671 outside its (larger) class *)
+Theorem push_filters_pre_sound : forall G p,
+  uniform p = true -> k_push_pre p = false -> sem G (pfd_pre p) = sem G p.
+Proof. intros G p U K. apply pfd_pre_sound; [exact U|]. unfold k_push_pre in K. now apply Bool.negb_false_iff in K. Qed.
+Print Assumptions push_filters_pre_sound.
 
 (** the single commutation behind every push *)
 Theorem push_one_filter_sound : forall G e op,
@@ -81,18 +87,18 @@ Proof. exact jt_canonical. Qed.
 Print Assumptions join_tree_is_filtered_product.
 
 (** what the pass may return includes answer-changing plans: it forgets the filters of the tree ... *)
-Theorem join_reorder_drops_filter_refuted : exists G b a,
-  uniform b = true /\ reorder_chk b a = true /\ k_reorder b a = true /\
+Theorem join_reorder_drops_filter_pre_refuted : exists G b a,
+  uniform b = true /\ reorder_chk_pre b a = true /\ k_reorder b a = true /\
   List.length (sem G b) <> List.length (sem G a).
 Proof. exact reorder_drops_filter_refuted_l. Qed.
-Print Assumptions join_reorder_drops_filter_refuted.
+Print Assumptions join_reorder_drops_filter_pre_refuted.
 
 (** ... and writes a condition the way the query had it, which the planner drops on a swapped join *)
-Theorem join_reorder_swaps_condition_refuted : exists G b a,
-  uniform b = true /\ reorder_chk b a = true /\ k_reorder b a = true /\
+Theorem join_reorder_swaps_condition_pre_refuted : exists G b a,
+  uniform b = true /\ reorder_chk_pre b a = true /\ k_reorder b a = true /\
   List.length (sem G b) <> List.length (sem G a).
 Proof. exact reorder_swaps_condition_refuted_l. Qed.
-Print Assumptions join_reorder_swaps_condition_refuted.
+Print Assumptions join_reorder_swaps_condition_pre_refuted.
 
 Theorem join_reorder_sound : forall G b a, k_reorder b a = false -> bag_eqv (sem G b) (sem G a).
 Proof. intros G b a K. apply reorder_sound. unfold k_reorder in K. now apply Bool.negb_false_iff in K. Qed.
@@ -160,8 +166,8 @@ Proof. exact sem_e_pre_no_stack. Qed.
 Print Assumptions engine_filters_pre_agree_without_stacks.
 
 Theorem push_filters_engine_stack_pre_refuted : exists G p,
-  uniform p = true /\ k_push p = false /\ no_stack p = true /\ no_stack (pfd p) = false /\
-  sem G (pfd p) = sem G p /\ List.length (sem_e_pre G (pfd p)) <> List.length (sem_e_pre G p).
+  uniform p = true /\ k_push_pre p = false /\ no_stack p = true /\ no_stack (pfd_pre p) = false /\
+  sem G (pfd_pre p) = sem G p /\ List.length (sem_e_pre G (pfd_pre p)) <> List.length (sem_e_pre G p).
 Proof. exact engine_stack_pre_refuted_l. Qed.
 Print Assumptions push_filters_engine_stack_pre_refuted.
 
@@ -175,26 +181,21 @@ Theorem push_filters_sound_engine_pre : forall G p,
 Proof. exact pfd_sound_engine_pre. Qed.
 Print Assumptions push_filters_sound_engine_pre.
 
-(** the proposed repair of C09-K1 (proposed-fixes/C09-push-filter-scope.diff; [pfd_fix] transcribes
-    the patched functions, NOT the code of /repo): sound outside what is left of the class; the three
-    witnesses above are no longer in it and keep their rows *)
-Theorem proposed_push_filters_fix_sound : forall G p,
-  uniform p = true -> k_push_fix p = false -> sem G (pfd_fix p) = sem G p.
-Proof. exact pfd_fix_sound_k. Qed.
-Print Assumptions proposed_push_filters_fix_sound.
+(** since 7426671 (repair of C09-K1) what is left of the class ... *)
 
-(** ... and that is empty on every plan the Binder accepts ([wscoped]: expressions mention only
+
+(** ... is empty on every plan the Binder accepts ([wscoped]: expressions mention only
     columns of their input) whose predicates do not spell a column name the planner invents *)
-Theorem proposed_push_filters_fix_sound_scoped : forall G p,
-  uniform p = true -> wscoped p = true -> names_ok p = true -> sem G (pfd_fix p) = sem G p.
-Proof. exact pfd_fix_scoped. Qed.
-Print Assumptions proposed_push_filters_fix_sound_scoped.
+Theorem push_filters_sound_scoped : forall G p,
+  uniform p = true -> wscoped p = true -> names_ok p = true -> sem G (pfd p) = sem G p.
+Proof. exact pfd_scoped. Qed.
+Print Assumptions push_filters_sound_scoped.
 
-Theorem proposed_push_filters_fix_covers_witnesses : exists G p,
-  uniform p = true /\ no_conds p = true /\ k_push p = true /\ ~ Permutation (sem G (pfd p)) (sem G p) /\
-  k_push_fix p = false /\ sem G (pfd_fix p) = sem G p.
-Proof. exact pfd_fix_witness_frontend. Qed.
-Print Assumptions proposed_push_filters_fix_covers_witnesses.
+Theorem push_filters_repaired_witness : exists G p,
+  uniform p = true /\ no_conds p = true /\ k_push_pre p = true /\ ~ Permutation (sem G (pfd_pre p)) (sem G p) /\
+  k_push p = false /\ sem G (pfd p) = sem G p.
+Proof. exact pfd_witness_frontend. Qed.
+Print Assumptions push_filters_repaired_witness.
 
 (** non-vacuity: the hypotheses hold on plans the passes really change *)
 From Coq Require Import String ZArith.
@@ -247,12 +248,12 @@ Example nv_reorder_distinct :
 Proof. vm_compute. repeat split. Qed.
 
 (** the hypotheses of the scoped theorem hold on the K1 witness and on a plan the patched pass changes *)
-Example nv_fix_scoped :
+Example nv_scoped :
   let p1 := PReturn [(EProp "a" "v", None); (EProp "b" "v", None); (EProp "c" "v", None)] false
     (PFilter (EBin OEq (EProp "a" "v") (EProp "c" "v"))
        (PJoin JCross [] (PScanIn "b" (Some "B") (PScan "a" (Some "A"))) (PScan "c" (Some "C")))) in
   let p2 := PFilter (EBin OGt (EProp "a" "v") (ELit (VInt 0%Z)))
        (PJoin JCross [] (PScanIn "b" (Some "B") (PScan "a" (Some "A"))) (PScan "c" (Some "C"))) in
-  uniform p1 = true /\ wscoped p1 = true /\ names_ok p1 = true /\ k_push p1 = true /\
-  uniform p2 = true /\ wscoped p2 = true /\ names_ok p2 = true /\ plan_eqb (pfd_fix p2) p2 = false.
+  uniform p1 = true /\ wscoped p1 = true /\ names_ok p1 = true /\ k_push_pre p1 = true /\ k_push p1 = false /\
+  uniform p2 = true /\ wscoped p2 = true /\ names_ok p2 = true /\ plan_eqb (pfd p2) p2 = false.
 Proof. vm_compute. repeat split. Qed.
